@@ -37,10 +37,42 @@ function main() -> void { int i = 0; while (i < 9000) { Box b = new Box(i); i = 
 ]
 
 
+def held_by_cycle_prog(rng):
+    """a qubit owner (with a destructor and a tracked field) held only by a garbage cycle of plain objects"""
+    k = rng.randint(2, 3)
+    burst1, burst2 = rng.choice([0, 20, 40]), rng.choice([0, 20, 40])
+    depth = rng.choice([0, 1])
+    src = ("class T { @tracked public qubit q; public constructor() -> T { } public destructor() -> void { echo(\"T dies\"); } }\n"
+           "class Mid { public T t = null; public constructor() -> Mid { } }\n"
+           "class A { public A other = null; public T t = null; public Mid m = null; public constructor() -> A { } }\n"
+           "class Junk { public int n; public constructor(int n) -> Junk { this.n = n; } }\n"
+           "function churn(int n) -> int { int t = 0; for (int i = 0; i < n; i = i + 1) { Junk j = new Junk(i); t = t + j.n; } return t; }\n")
+    body = ["A a%d = new A();" % i for i in range(k)]
+    body += ["a%d.other = a%d;" % (i, (i + 1) % k) for i in range(k)]
+    holder = "a%d" % rng.randrange(k)
+    if depth == 0:
+        body.append("%s.t = new T();" % holder)
+        ref = "%s.t" % holder
+    else:
+        body += ["%s.m = new Mid();" % holder, "%s.m.t = new T();" % holder]
+        ref = "%s.m.t" % holder
+    if rng.random() < 0.6:
+        body.append("x(%s.q);" % ref)
+    if rng.random() < 0.6:
+        body.append("measure %s.q;" % ref)
+    make = "function make() -> void {\n  " + "\n  ".join(body) + "\n}\n"
+    main = ["make();", "echo(churn(%d));" % burst1, "qubit fresh;", "h(fresh);", "echo(churn(%d));" % burst2, "echo(\"end\");"]
+    if rng.random() < 0.5:
+        main.insert(4, "bit b = measure fresh; echo(b);")
+    return src + make + "function main() -> void {\n  " + "\n  ".join(main) + "\n}\n"
+
+
 def qubit_cycle_prog(rng):
     """objects that own qubits (directly or through a base class), tied into garbage cycles; allocation bursts before or
     after a fresh qubit is declared.  The emitted circuit, warnings, qubit numbering and flags must not depend on
     when the collector runs."""
+    if rng.random() < 0.4:
+        return held_by_cycle_prog(rng)
     inherited = rng.random() < 0.7
     k = rng.randint(2, 4)
     burst1, burst2 = rng.choice([0, 20, 40]), rng.choice([0, 20, 40])
@@ -69,6 +101,41 @@ def qubit_cycle_prog(rng):
     if rng.random() < 0.5:
         body.append("bit b = measure fresh; echo(b);")
     return reg + cell + junk + "function main() -> void {\n  " + "\n  ".join(body) + "\n}\n"
+
+
+THREAD_PROGS = [
+    ("ok", "class N { public N next = null; public constructor() -> N { } }\nfunction main() -> void { N a = new N(); echo(1); }"),
+    ("runtime-error", "class N { public N next = null; public constructor() -> N { } }\nfunction main() -> void { N a = new N(); N b = a.next.next; echo(1); }"),
+    ("runtime-error", "class N { public int[] xs = {1}; public constructor() -> N { } public function at(int i) -> int { return xs[i]; } }\n"
+                      "function deep(N n, int d) -> int { if (d <= 0) { return n.at(5); } return deep(n, d - 1); }\nfunction main() -> void { N a = new N(); echo(deep(a, 6)); }"),
+    ("runtime-error", "class D { public constructor() -> D { } public destructor() -> void { int z = 0; echo(1 % z); } }\nfunction main() -> void { D d = new D(); }"),
+]
+
+
+def thread_runs(chk):
+    """the timer thread is stopped when a run ends, normally or by an error: one thread left while the evaluator is still alive"""
+    drv = vlib.cpp_driver("drv_threads")
+    tmp = os.path.join(vlib.BUILD, "tmp", "c11thr-%d" % os.getpid())
+    os.makedirs(tmp, exist_ok=True)
+    try:
+        paths = []
+        for i, (_, src) in enumerate(THREAD_PROGS):
+            p = os.path.join(tmp, "t%d.bloch" % i)
+            open(p, "w").write(src)
+            paths.append(p)
+        rc, out = vlib.sh([drv] + paths, timeout=120)
+        lines = out.splitlines()
+        if len(lines) != len(paths):
+            raise RuntimeError("drv_threads produced %d/%d lines: %s" % (len(lines), len(paths), out[-300:]))
+        for (want, src), l in zip(THREAD_PROGS, lines):
+            st, n = l.split()
+            if st != want or int(n) != 1:
+                chk.report("c11-timer-thread", {"source": src, "expected": "%s 1" % want, "got": l,
+                                                "how": "drv_threads p.bloch: run through the library API, count /proc/self/task 120 ms after execute() ended"},
+                           "after a run ending '%s' %s thread(s) are alive (the timer thread was not stopped)" % (st, n))
+    finally:
+        shutil.rmtree(tmp, ignore_errors=True)
+    return len(THREAD_PROGS)
 
 
 def tsan_runs(chk):
@@ -144,7 +211,7 @@ def run(chk):
     draws = "draws=" + ",".join("0.%d" % ((7 * i) % 10) for i in range(12))
     qouts = {s: lc.run_impl(qsrc, env="BLOCH_VERIF_GC=%s" % s, opts=draws) for s in scheds}
     qouts["default"] = lc.run_impl(qsrc, opts=draws)
-    keys = ("status", "cat", "stdout", "stderr", "qasm", "nq", "sim_meas", "ev_meas", "free", "last", "draws")
+    keys = ("status", "cat", "stdout", "stderr", "qasm", "nq", "sim_meas", "ev_meas", "free", "last", "draws", "tracked")
     nq = 0
     for i, src in enumerate(qsrc):
         base = qouts["none"][i]
@@ -161,9 +228,10 @@ def run(chk):
                                                     "how": "BLOCH_VERIF_GC=%s drv_prog 'run p.bloch %s' vs BLOCH_VERIF_GC=none" % (sname, draws)},
                            "circuit / warnings / qubit bookkeeping depend on the collection schedule (%s): %s" % (sname, ",".join(diff)))
                 break
+    nthr = thread_runs(chk)
     ntsan = tsan_runs(chk) if True else 0
     chk.cov.update({"programs": len(progs), "schedules": list(outs), "executions": len(progs) * len(outs), "verdicts_vs_reference": counts,
-                    "schedule_disagreements": ndiff, "qubit_cycle_programs": len(qsrc), "qubit_cycle_schedule_disagreements": nq, "distinct_nontrivial_programs": len(nontriv), "tsan_runs": ntsan,
+                    "schedule_disagreements": ndiff, "qubit_cycle_programs": len(qsrc), "qubit_cycle_schedule_disagreements": nq, "distinct_nontrivial_programs": len(nontriv), "tsan_runs": ntsan, "timer_thread_runs": nthr,
                     "disagreements_checked": ndiff + sum(v for k, v in counts.items() if k not in ("agree", "rejected") and not k.startswith("skip")),
                     "rule": "programs whose object graphs are held by variables, fields, statics, pending call arguments, temporaries used as receivers and in-flight "
                             "return values, with allocation bursts (0..40 objects) at exactly those points, garbage cycles, cascading destructors; plus random class "
